@@ -399,6 +399,12 @@ func (p *Pool) RunCases(cases []Case) []*Result {
 				rr := r
 				out[i] = &rr
 				if r.Timeout {
+					if b, err := os.ReadFile(ch.errLog); err == nil {
+						if len(b) > 6000 {
+							b = b[len(b)-6000:]
+						}
+						out[i].CrashMsg = string(b)
+					}
 					ch.cmd.Wait()
 					ch.resF.Close()
 					os.Remove(ch.errLog)
